@@ -15,6 +15,8 @@ EXPLANATION = (
     " field. (O14.8) Reader / Writer constructed with the path of a CID. (O14.9) a row the row writer refuses"
     " after validation must not be registered by the checks (known finding)."
     " Added in rounds 8 and 9: (O14.10) a row writer given a path closes the file it opened."
+    " Added in round 10: (O12.1, shared with C12) the csv writer quotes what the csv reader needs quoted: both"
+    " are configured from the same keywords. Number items in a row are refused like any other non-text."
 )
 ASSUMPTIONS = ["csv.writer.writerow / stream.write emit what they are given (C12 decides the dialect side)"]
 
